@@ -24,6 +24,9 @@
  *   CB<esi>:<size>,...             callback invocations in call order ('s' prefix source, 'r' repair)
  *   RO<0|1>                        every buffer handed to the library (received symbols, encoder sources) unchanged
  *   LK<n>                          heap blocks still live after release + the application freeing what it owns
+ *   HL<a>;<b>,<b>,...;<c|->;<d>    library-owned heap blocks of the DECODER session (allocations made inside the application's callbacks
+ *                                  excluded): after create + set_fec_parameters (+ the builds of role 4), after every submission call,
+ *                                  after of_finish_decoding, after of_release_codec_instance
  */
 #include <stdio.h>
 #include <stdarg.h>
@@ -42,6 +45,11 @@ static FILE *out;	/* answers; the library prints its own messages on stdout/stde
 /* ---- allocation accounting (linked with -Wl,--wrap=malloc,--wrap=calloc,--wrap=realloc,--wrap=free) ---- */
 void *__real_malloc(size_t); void *__real_calloc(size_t, size_t); void *__real_realloc(void *, size_t); void __real_free(void *);
 static long live_blocks;
+static long cb_allocs;	/* blocks allocated by the application's callbacks */
+static long lib_blocks;	/* ledger: blocks the library owns on behalf of the decoder session */
+static long lc_live, lc_cb;
+#define LIB_BEGIN() do { lc_live = live_blocks; lc_cb = cb_allocs; } while (0)
+#define LIB_END() do { lib_blocks += (live_blocks - lc_live) - (cb_allocs - lc_cb); } while (0)
 void *__wrap_malloc(size_t n) { void *p = __real_malloc(n); if (p) live_blocks++; return p; }
 void *__wrap_calloc(size_t a, size_t b) { void *p = __real_calloc(a, b); if (p) live_blocks++; return p; }
 void *__wrap_realloc(void *q, size_t n) { void *p = __real_realloc(q, n); if (!q && p) live_blocks++; if (q && !n && !p) live_blocks--; return p; }
@@ -58,11 +66,13 @@ static UINT32 g_L;
 static uint64_t sm_state;
 static uint64_t sm_next(void) { uint64_t z = (sm_state += 0x9E3779B97F4A7C15ULL); z = (z ^ (z >> 30)) * 0xBF58476D1CE4E5B9ULL; z = (z ^ (z >> 27)) * 0x94D049BB133111EBULL; return z ^ (z >> 31); }
 
+#define MAXHL 4096
+static long hl[MAXHL], hl_setup, hl_fin; static int nhl;
 static void *src_cb(void *ctx, UINT32 size, UINT32 esi)
 {
 	void *p = NULL;
 	cb_esi[ncb] = esi; cb_kind[ncb] = 's'; cb_size[ncb] = size; ncb++;
-	if (cbmode == 1 || (cbmode == 3 && (ncb & 1))) { p = malloc(size ? size : 1); cb_buf[ncbbuf++] = p; }
+	if (cbmode == 1 || (cbmode == 3 && (ncb & 1))) { p = malloc(size ? size : 1); cb_buf[ncbbuf++] = p; cb_allocs++; }
 	return p;
 }
 static void *rep_cb(void *ctx, UINT32 size, UINT32 esi)
@@ -201,8 +211,11 @@ int main(void)
 		fprintf(out, " Y");
 		for (i = 0; i < n; i++) { if (i) fputc('.', out); for (j = 0; j < (UINT32)L; j++) fprintf(out, "%02x", ((unsigned char *)enc_tab[i])[j]); }
 		/* ---------------- decoder ---------------- */
+		lib_blocks = 0; nhl = 0; hl_fin = -1;
+		LIB_BEGIN();
 		if (of_create_codec_instance(&dec, (of_codec_id_t)codec, role >= 3 ? OF_ENCODER_AND_DECODER : OF_DECODER, 0) != OF_STATUS_OK) { fprintf(out, " CREATE-FAILED\n"); continue; }
 		st = set_params(dec, codec, k, r, L, p1, p2);
+		LIB_END();
 		fprintf(out, " Q%d", st);
 		if (st == OF_STATUS_OK) {
 			dec_ok = 1;
@@ -214,21 +227,24 @@ int main(void)
 				void **t2 = calloc(n, sizeof *t2); UINT32 nb = 1 + (UINT32)(seed % 3); int okb = 1;
 				if (nb > (UINT32)r) nb = r;
 				for (i = 0; i < n; i++) { t2[i] = malloc(L ? L : 1); if (i < (UINT32)k) memcpy(t2[i], enc_tab[i], L); else memset(t2[i], 0x77, L); }
-				for (i = k; i < k + nb; i++) if (of_build_repair_symbol(dec, t2, i) != OF_STATUS_OK || memcmp(t2[i], enc_tab[i], L)) okb = 0;
+				for (i = k; i < k + nb; i++) { of_status_t bs; LIB_BEGIN(); bs = of_build_repair_symbol(dec, t2, i); LIB_END(); if (bs != OF_STATUS_OK || memcmp(t2[i], enc_tab[i], L)) okb = 0; }
 				for (i = 0; i < n; i++) free(t2[i]);
 				free(t2);
 				fprintf(out, " ED%d", okb);
 			}
 			for (i = 0; i < n; i++) { recv_tab[i] = malloc(L ? L : 1); memcpy(recv_tab[i], enc_tab[i], L); avail_tab[i] = NULL; }
+			hl_setup = lib_blocks;
 			if (api == 0) {
 				for (i = 0; i < (UINT32)nesi; i++) {
-					st = of_decode_with_new_symbol(dec, recv_tab[esis[i]], esis[i]);
+					LIB_BEGIN(); st = of_decode_with_new_symbol(dec, recv_tab[esis[i]], esis[i]); LIB_END();
+					if (nhl < MAXHL) hl[nhl++] = lib_blocks;
 					fprintf(out, " S%d%d", st, of_is_decoding_complete(dec) ? 1 : 0);
 					print_masks(dec, codec, k, n, 1);
 				}
 			} else {
 				for (i = 0; i < (UINT32)nesi; i++) avail_tab[esis[i]] = recv_tab[esis[i]];
-				st = of_set_available_symbols(dec, avail_tab);
+				LIB_BEGIN(); st = of_set_available_symbols(dec, avail_tab); LIB_END();
+				if (nhl < MAXHL) hl[nhl++] = lib_blocks;
 				fprintf(out, " S%d%d", st, of_is_decoding_complete(dec) ? 1 : 0);
 				print_masks(dec, codec, k, n, 1);
 			}
@@ -244,7 +260,8 @@ int main(void)
 					for (t = 0; t < (UINT32)r; t++) fprintf(out, t ? ",%u" : "%u", pm[t]);
 					srand(12345u + (unsigned)k * 7u + (unsigned)r);
 				}
-				st = of_finish_decoding(dec);
+				LIB_BEGIN(); st = of_finish_decoding(dec); LIB_END();
+				hl_fin = lib_blocks;
 				fprintf(out, " F%d%d", st, of_is_decoding_complete(dec) ? 1 : 0);
 				print_masks(dec, codec, k, n, 0);
 			}
@@ -267,7 +284,7 @@ int main(void)
 		}
 		fprintf(out, " RO%d", ro);
 		/* ---------------- release; the application frees what it owns ---------------- */
-		of_release_codec_instance(dec);
+		LIB_BEGIN(); of_release_codec_instance(dec); LIB_END();
 		of_release_codec_instance(enc);
 		if (dec_ok) {
 			for (i = 0; i < (UINT32)k; i++) {
@@ -281,6 +298,11 @@ int main(void)
 		}
 		for (i = 0; i < (UINT32)ncbbuf; i++) free(cb_buf[i]);
 		for (i = 0; i < n; i++) { free(enc_tab[i]); if (recv_tab[i]) free(recv_tab[i]); recv_tab[i] = NULL; if (i < (UINT32)k) free(orig[i]); }
+		if (dec_ok) {
+			fprintf(out, " HL%ld;", hl_setup);
+			for (i = 0; i < (UINT32)nhl; i++) fprintf(out, i ? ",%ld" : "%ld", hl[i]);
+			if (hl_fin >= 0) fprintf(out, ";%ld;%ld", hl_fin, lib_blocks); else fprintf(out, ";-;%ld", lib_blocks);
+		}
 		fprintf(out, " LK%ld\n", live_blocks - base_live);
 	}
 	return 0;
